@@ -44,7 +44,7 @@ class Scenario:
         self.shutdown_at: float | None = None
         self.reopened_after_close: list[float] = []
         self.healed_at: float | None = None
-        self.legit_disturb: dict[int, float] = {}  # conn no -> last time something legitimately doomed it
+        self.legit_disturb: dict[int, list] = {}  # conn no -> last time something legitimately doomed it
         self.events: list[dict] = []
         self.listeners: dict[str, dict] = {}
         self.secure_marks: list[dict] = []  # successful secure connections: t_secure, t_connector_done, conn
@@ -116,7 +116,7 @@ class Scenario:
 
         async def connect_once_wrapper():
             loop = sc.loop
-            rec = {"t0": loop.time(), "t1": None, "outcome": None, "overlap": sc.in_attempt > 0, "log0": len(sc.w.net.connect_log),
+            rec = {"t0": loop.time(), "t1": None, "outcome": None, "overlap": sc.in_attempt > 0, "log0": len(sc.w.net.connect_log), "conn0": len(sc.w.net.conns),
                    "failed_hosts_before": sorted(getattr(connection, "_pair_verify_failed_hosts", ())),
                    "hosts": list(connection.hosts)}
             sc.attempts.append(rec)
@@ -145,7 +145,7 @@ class Scenario:
                 sc.in_attempt -= 1
                 rec["t1"] = loop.time()
                 rec["dialled"] = [_norm(c["host"]) for c in sc.w.net.connect_log[rec["log0"]:]]
-                rec["established"] = [_norm(c["host"]) for c in sc.w.net.connect_log[rec["log0"]:] if c["outcome"] == "ok" and c["t_done"] is not None]
+                rec["established"] = [_norm(c.host) for c in sc.w.net.conns[rec["conn0"]:] if c.transport is not None]
                 rec["n_hosts_after"] = len(connection.hosts)
                 sc.ctx.event("attempt_end", rec["outcome"])
                 sc.ctx.state("attempt", rec["outcome"], len(sc.w.net.client_open_conns()), bool(connection.closing))
@@ -283,7 +283,7 @@ class Scenario:
                                "frame_start": conn.queued_a2c + off, "frame_end": conn.queued_a2c + off + 2 + n + 16,
                                "t_full": None, "delivered_after": []})
         self.ctx.probe("corrupt_" + where)
-        self.legit_disturb[conn.no] = self.loop.time()
+        self.legit_disturb.setdefault(conn.no, []).append(self.loop.time())
         return bytes(ba)
 
     def _send_events(self, op: dict) -> None:
@@ -388,7 +388,7 @@ class Scenario:
         elif kind in ("rst", "fin"):
             sess = self._current_session()
             if sess is not None and not sess.closed:
-                self.legit_disturb[sess.conn.no] = loop.time()
+                self.legit_disturb.setdefault(sess.conn.no, []).append(loop.time())
                 sess.conn.server_close(kind, delay=op.get("delay"))
                 ctx.probe("peer_" + kind)
             else:
@@ -406,7 +406,7 @@ class Scenario:
             sess = self._current_session()
             busy = any(c["t1"] is None for c in self.calls) or self.in_attempt > 0
             if sess is not None and sess.secure and not sess.closed and not busy:
-                self.legit_disturb[sess.conn.no] = loop.time()
+                self.legit_disturb.setdefault(sess.conn.no, []).append(loop.time())
                 self.tainted.add(sess.conn.no)
                 sess._out(rhttp.response(200, rhttp.compact_json({"characteristics": [{"aid": 1, "iid": 10, "value": 424242}]})), "unsolicited", None)
                 self.unsolicited.append({"conn": sess.conn.no, "end_offset": sess.conn.queued_a2c, "done": False})
@@ -448,7 +448,7 @@ class Scenario:
         self.triggers.append((loop.time(), kind))
         self.closed_at = loop.time()
         for c in self.w.net.conns:
-            self.legit_disturb[c.no] = loop.time()
+            self.legit_disturb.setdefault(c.no, []).append(loop.time())
 
         async def runner():
             try:
@@ -527,7 +527,7 @@ class Scenario:
                 if not task.done():
                     rec["cancelled_by_plan"] = True
                     if rec["conn"] is not None:
-                        self.legit_disturb[rec["conn"]] = loop.time()
+                        self.legit_disturb.setdefault(rec["conn"], []).append(loop.time())
                     ctx.probe("caller_cancelled")
                     task.cancel()
 
@@ -554,14 +554,14 @@ class Scenario:
                 # timed out / cancelled / dropped: the connection this request was written on is out of
                 # sync and must be abandoned (a complete 4xx reply leaves the connection in sync)
                 self.abandoned.setdefault(conn_no, t1 + TOL)
-                self.legit_disturb[conn_no] = t1
+                self.legit_disturb.setdefault(conn_no, []).append(t1)
             if name == "CancelledError":
                 if not rec["cancelled_by_plan"] and not self._close_overlaps(rec):
                     ctx.violate("C08.exception-class", "spurious-CancelledError",
                                 f"call #{rec['no']} {rec['op']} got CancelledError without being cancelled (t={t1:.3f})")
             elif name == "TimeoutError" and rec["own_timeout"] and not isinstance(e, AccessoryDisconnectedError):
                 if conn_no is not None:
-                    self.legit_disturb[conn_no] = t1
+                    self.legit_disturb.setdefault(conn_no, []).append(t1)
             elif isinstance(e, (AccessoryDisconnectedError, AuthenticationError)):
                 pass
             else:
@@ -881,7 +881,7 @@ class Scenario:
         # bounded liveness after heal
         if self.healed_at is not None and self.shutdown_at is None and not self._closed_between(self.healed_at - 1e9, end) and not self.plan.get("no_liveness"):
             stopped_by_auth = bool(at) and at[-1]["outcome"] in auth_stop
-            if end - self.healed_at >= 75.0 and not stopped_by_auth:
+            if end - self.healed_at >= 75.0 and not stopped_by_auth and at:
                 ctx.obligations += 1
                 if not w.pairing.connection.is_connected:
                     last = at[-1] if at else None
@@ -930,9 +930,10 @@ class Scenario:
             conn = w.net.conns[no]
             if conn.client_open or conn.client_close_reason != "transport.close":
                 continue
+            if w.conn_behaviour.get(no, {}).get("kind", "honest") != "honest":
+                continue  # e.g. an HTTP error during verify makes the library close that connection itself
             tc = conn.t_client_closed
-            legit = self.legit_disturb.get(no)
-            if legit is not None and abs(legit - tc) <= 30.0 + TOL and legit <= tc + TOL:
+            if any(tc - 30.0 - TOL <= lg <= tc + TOL for lg in self.legit_disturb.get(no, [])):
                 continue
             if conn.peer_closed_first:
                 continue
